@@ -75,6 +75,9 @@ func createAudioSeg(vodFS fs.FS, a *asset, rec audioRecipe) (*mp4.MediaSegment, 
 	lastIdx := len(rep.Segments) - 1
 	// Find a segment start nr that is early enough for audioInStart
 	startNr := int(rec.audioInStart) / rep.duration()
+	if startNr > lastIdx {
+		startNr = lastIdx
+	}
 	for {
 		if rep.Segments[startNr].StartTime > rec.audioInStart {
 			startNr--
@@ -115,6 +118,15 @@ func createAudioSeg(vodFS fs.FS, a *asset, rec audioRecipe) (*mp4.MediaSegment, 
 		sampleItvls[len(sampleItvls)-1].endIdx = uint32((rec.audioInEnd - s.StartTime) / sampleDur)
 		timeCollected += sampleItvls[len(sampleItvls)-1].dur(sampleDur)
 		break
+	}
+	if len(sampleItvls) == 0 && rec.audioInStart >= rep.Segments[lastIdx].EndTime {
+		// The interval starts at or after the end of the audio (audio shorter than the reference loop).
+		// Everything up to audioInEnd is filled by repeating the last sample.
+		s := rep.Segments[lastIdx]
+		nrSamples := uint32((s.EndTime - s.StartTime) / sampleDur)
+		fillTime := rec.audioInEnd - rec.audioInStart
+		sampleItvls = append(sampleItvls, sampleItvl{lastIdx, nrSamples, nrSamples, uint32(fillTime / sampleDur)})
+		timeCollected += fillTime
 	}
 	audioLeft := (rec.endTime - rec.startTime - timeCollected)
 	if audioLeft != rec.audioInEndAfterWrap {
